@@ -133,6 +133,9 @@ def bits(v, n):
 # tree): they guard the parser's desugarings, which the AST-level oracles (Sem.v, TSem) cannot see.  Every program ignores
 # its input, so the expected output is one bit string.
 GOLDEN = [
+    # fix 7bf4e4f: an unsuffixed range used at a typed array has elements of that type
+    ("golden-unsuffixed-range-typed", "pub fn main(z: u8) -> ([u8; 3], u16) { let a: [u8; 3] = 2..5; let b: [u16; 2] = 300..302; (a, b[1usize]) }",
+     bits(2, 8) + bits(3, 8) + bits(4, 8) + bits(301, 16), None),
     ("golden-le-operand-once", "pub fn main(z: u8) -> (bool, u8) { let mut c = 3u8; let r = ({ c = c + 1u8; c }) <= 5u8; (r, c) }",
      "1" + bits(4, 8), None),
     ("golden-ge-operand-once", "pub fn main(z: u8) -> (bool, u8) { let mut c = 3u8; let r = 4u8 >= ({ c = c + 1u8; c }); (r, c) }",
